@@ -332,6 +332,9 @@ func (x *c06Ctx) pickSilent(participants []*vfdNode) *vfdNode {
 
 func (x *c06Ctx) info(extra map[string]any) map[string]any {
 	m := map[string]any{"case_index": x.c.Index, "case": x.c, "epoch": x.epoch}
+	if x.net != nil && x.net.errs != nil {
+		m["error_log_tail"] = x.net.errs.tail()
+	}
 	for k, v := range extra {
 		m[k] = v
 	}
